@@ -11,6 +11,7 @@ import (
 
 	"github.com/pion/stun/v3"
 	"github.com/pion/turn/v5"
+	"github.com/pion/turn/v5/internal/client"
 )
 
 // CliWorld (W-cli): the real turn.Client on a simnet socket against a scripted TURN server.
@@ -58,6 +59,14 @@ type CliWorld struct {
 	readers int
 	injected []injRec // payloads the scripted server relayed toward the client
 	reads    []readRec
+	tcpAlloc      *client.TCPAllocation
+	deadlines     []dlRec
+	relayClosed   bool
+	relayClosedAt int64
+	chanSeen      map[uint16]string
+	peerChan      map[string]uint16
+	permDelivered map[string]int64
+	chanDelivered map[uint16]chanDel
 }
 
 type srvRec struct {
@@ -77,6 +86,9 @@ type respRec struct {
 	Delivered int64
 	OK        bool
 	Code      int
+	PermIPs   []string
+	Chan      uint16
+	ChanPeer  string
 }
 
 type rxRec struct {
@@ -107,6 +119,7 @@ type callRec struct {
 	Data   []byte
 	From   net.Addr
 	marked bool
+	probed bool
 }
 
 type injRec struct {
@@ -126,7 +139,8 @@ type readRec struct {
 
 func NewCliWorld(k *Kernel, p *Plan) *CliWorld {
 	w := &CliWorld{K: k, P: p, txnIndex: map[string]map[[12]byte]int{}, txnCount: map[string]int{}, attempts: map[[12]byte]int{},
-		resp: map[int]*respRec{}, tx: map[[12]byte][]int64{}, perms: map[string]bool{}, chans: map[uint16]string{}}
+		resp: map[int]*respRec{}, tx: map[[12]byte][]int64{}, perms: map[string]bool{}, chans: map[uint16]string{},
+		permDelivered: map[string]int64{}, chanDelivered: map[uint16]chanDel{}}
 	w.Net = NewNet(k)
 	w.Net.Obs = w
 	w.LF = NewLoggerFactory(k, p.Expect != nil)
@@ -152,6 +166,7 @@ func (w *CliWorld) UDPRead(s *UDPSock, d *Dgram, n int) {
 		}
 		if r := w.resp[id]; r != nil && r.Delivered == 0 {
 			r.Delivered = now
+			w.relayDelivered(r, now)
 		}
 		w.rx = append(w.rx, rxRec{T: now, TID: msg.TransactionID, RespID: id, IsResp: true})
 	}
@@ -178,11 +193,18 @@ func (w *CliWorld) UDPWrite(s *UDPSock, to *net.UDPAddr, b []byte) {
 		if d, err := msg.Get(attrData); err == nil {
 			rec.Data = append([]byte(nil), d...)
 		}
+		if v, ok := getU32(msg, attrLifetime); ok && v == 0 && msg.Type.Method == stun.MethodRefresh && !w.relayClosed {
+			// the relayed socket is being closed (by the application, or by the library itself
+			// after a ChannelBind 400)
+			w.relayClosed = true
+			w.relayClosedAt = now
+		}
 	} else if n, data, ok := parseChannelData(b); ok {
 		rec.Chan = n
 		rec.Data = append([]byte(nil), data...)
 	}
 	w.wire = append(w.wire, rec)
+	w.relayWire(&rec, now)
 }
 func (w *CliWorld) UDPDeliverScripted(s *UDPSock, d *Dgram) {}
 func (w *CliWorld) SockOpen(info *SockInfo)                {}
@@ -386,6 +408,7 @@ func (w *CliWorld) buildResponse(req *stun.Message, method, do string, now int64
 			peers, _ := allXORAddrs(req, attrXORPeerAddress)
 			for _, p := range peers {
 				w.perms[p.IP.String()] = true
+				rr.PermIPs = append(rr.PermIPs, p.IP.String())
 			}
 		case "chanbind":
 			n, ok1 := getChannel(req)
@@ -393,6 +416,8 @@ func (w *CliWorld) buildResponse(req *stun.Message, method, do string, now int64
 			if ok1 && ok2 {
 				w.chans[n] = ustr(p)
 				w.perms[p.IP.String()] = true
+				rr.PermIPs = append(rr.PermIPs, p.IP.String())
+				rr.Chan, rr.ChanPeer = n, ustr(p)
 			}
 		}
 	}
@@ -466,11 +491,14 @@ func (w *CliWorld) finish() {
 	w.checkTransactions(true)
 	w.checkRelay(true)
 	w.mu.Lock()
-	cli, relay := w.Cli, w.relay
+	cli, relay, ta := w.Cli, w.relay, w.tcpAlloc
 	w.mu.Unlock()
 	w.lib(func() {
 		if relay != nil {
 			_ = relay.Close()
+		}
+		if ta != nil {
+			_ = ta.Close()
 		}
 		if cli != nil {
 			cli.Close()
